@@ -382,7 +382,12 @@ where
             }
         }
     }
-    judge_records(&got, err, end, bytes, plan, N::USIZE, None)
+    judge_records(&got, err, end, bytes, plan, N::USIZE, first_poisoned(bytes, N::USIZE))
+}
+
+/// the harness message type rejects the record whose bytes are all `POISON` (see msg.rs)
+fn first_poisoned(bytes: &[u8], w: usize) -> Option<usize> {
+    bytes.chunks_exact(w).position(|c| c.iter().all(|b| *b == crate::verif::msg::POISON))
 }
 
 fn rec_batch_raw<N: ArrayLength + Send + Sync + 'static>(bytes: &[u8], plan: &[Plan]) -> V
@@ -407,7 +412,7 @@ where
             }
         }
     }
-    judge_records(&got, err, end, bytes, plan, N::USIZE, None)
+    judge_records(&got, err, end, bytes, plan, N::USIZE, first_poisoned(bytes, N::USIZE))
 }
 
 fn rec_fallible<T: Serializable + Send + 'static>(bytes: &[u8], plan: &[Plan], batch: bool) -> V {
